@@ -1168,6 +1168,20 @@ fn drive_c17(sc: &E2Scenario, rep: &mut RunReport) {
                                 cmp(p.decl_abs(i), t, "operation");
                             }
                         }
+                        if let Some(go) = p.gen_str("serverGraphqlOutput") {
+                            // (no source map, hence no trailer)
+                            let path = p.abs(&go);
+                            if let Some(cli) = gtree.get(&path) {
+                                rep.probe("library_server_graphql_compared");
+                                if *cli != lib.server_graphql.as_bytes() {
+                                    rep.violate(
+                                        &["C17"],
+                                        "C17.4-library-differs-from-cli:server-graphql",
+                                        format!("{path}: the server schema module produced through the library API differs from the file the CLI wrote ({} vs {} bytes)", lib.server_graphql.len(), cli.len()),
+                                    );
+                                }
+                            }
+                        }
                     }
                 }
             }
